@@ -28,13 +28,20 @@ func runC01Snapshot(c *Ctx) {
 			}
 			n++
 			fs := facts[b]
-			why, excused := hasFact(fs, func(f Fact) bool {
+			isExcuse := func(f Fact) bool {
 				if f.T.Op == "call" && strings.HasSuffix(f.T.Name, "IsFailed") && f.Pol {
 					return true
 				}
 				// the comma-ok of the map lookup on the receiver is false
 				return !f.Pol && f.T.Op == "extract" && f.T.Name == "1" && len(f.T.Args) == 1 && f.T.Args[0].Op == "lookup" && rootParam(f.T.Args[0].Args[0]) == 0
-			})
+			}
+			why, excused := hasFact(fs, isExcuse)
+			if !excused {
+				// the two reasons share one exit (`if found && !failed { return request }; return nil`): every way of
+				// reaching it establishes one of them
+				excused = fx.allPathsSatisfy(ret, func(s FactSet) bool { _, ok := hasFact(s, isExcuse); return ok })
+				why = "one of the two reasons on every path"
+			}
 			c.Check(fs.Bottom || excused, "O11", "RET", funcKey(g)+": no BindRequest reported only when there is none or it failed for good", instrPos(ret), "under "+why,
 				"a pod's live BindRequest can be withheld from the snapshot (facts: "+factKeys(fs)+"): a pod that is being bound is treated as plain Pending, its node's capacity is handed to another pod while the binder binds it")
 		}
